@@ -45,7 +45,7 @@ type Event struct {
 	// answers; the scenario goes on once it has failed
 	ID int `json:"id"`
 	// inject: how the handler behaves
-	Beh   string `json:"beh,omitempty"`   // plain | nested | nestedobs | gated | busy (nestedobs: the nested requests are Observe registrations; nestednon: non-confirmable GETs)
+	Beh   string `json:"beh,omitempty"`   // plain | nested | nestedobs | gated | busy (nestedobs: the nested requests are Observe registrations; nestednon: non-confirmable GETs; rst: on a datagram connection the message is an empty reset that answers nothing pending)
 	Depth int    `json:"depth,omitempty"` // nested: number of sequential nested requests the handler makes (1-3)
 	Con   bool   `json:"con,omitempty"`
 	// NoWait: the event is applied right behind the previous one, without waiting for quiescence
@@ -118,7 +118,18 @@ func Exec(t *testing.T, sc Scenario, r *evid.Run) *evid.Failure {
 				depthOf[e.ID] = max(e.Depth, 1)
 			}
 		}
+		rstOf := map[int]int{} // message ID of an injected stray reset -> its event ID
 		handle := func(c getter, rq *pool.Message, setResponse func(code codes.Code) error) {
+			if sc.Transport == "udp" && rq.Type() == message.Reset && rq.Code() == codes.Empty {
+				// a reset that answers nothing that is pending (a peer may reset a non-confirmable message or
+				// a notification of ours, RFC 7252 4.3 / RFC 7641 3.6): a message like any other
+				mu.Lock()
+				if id, ok := rstOf[int(rq.MessageID())]; ok {
+					hlog = append(hlog, hrec{id: id, t: time.Since(start), done: true})
+				}
+				mu.Unlock()
+				return
+			}
 			path, _ := rq.Path()
 			parts := strings.Split(strings.TrimPrefix(path, "/"), "/")
 			if len(parts) != 3 || parts[0] != "m" {
@@ -309,14 +320,22 @@ func Exec(t *testing.T, sc Scenario, r *evid.Run) *evid.Failure {
 				if w.Datagram() && !e.Con {
 					m.Type = peer.NON
 				}
-				if own := (lastLibMID + e.OwnMID) & 0xffff; e.OwnMID > 0 && w.Datagram() && lastLibMID >= 0 && !usedMID[own] {
+				if own := (lastLibMID + e.OwnMID) & 0xffff; e.OwnMID > 0 && w.Datagram() && lastLibMID >= 0 && !usedMID[own] && e.Beh != "rst" {
 					m.MID = own
+				}
+				if e.Beh == "rst" && w.Datagram() {
+					m = refcodec.Msg{Type: peer.RST, MID: m.MID}
 				}
 				for usedMID[m.MID] { // a well-behaved peer does not re-use an ID within the exchange lifetime
 					nextMID++
 					m.MID = nextMID & 0xffff
 				}
 				usedMID[m.MID] = true
+				if e.Beh == "rst" && w.Datagram() {
+					mu.Lock()
+					rstOf[m.MID] = e.ID
+					mu.Unlock()
+				}
 				if debug {
 					fmt.Printf("  peer->lib inject %d type=%d mid=%d\n", e.ID, m.Type, m.MID)
 				}
@@ -578,7 +597,7 @@ func gen(t *rapid.T) Scenario {
 		case "inject":
 			e.ID = id
 			id++
-			e.Beh = rapid.SampledFrom([]string{"plain", "plain", "busy"}).Draw(t, "plainbeh")
+			e.Beh = rapid.SampledFrom([]string{"plain", "plain", "busy", "rst"}).Draw(t, "plainbeh")
 			e.Con = rapid.Bool().Draw(t, "con")
 			e.NoWait = i > 0 && sc.Events[i-1].Kind == "inject" && rapid.IntRange(0, 2).Draw(t, "nowait") > 0
 			e.DropBefore = rapid.IntRange(0, 4).Draw(t, "dropbefore") == 0
